@@ -7,7 +7,7 @@
 From Coq Require Import Permutation.
 From Aqua Require Import Base Json JsonText Air Trace Handler Values Scalars Lens Exec RunExec ExecStreams.
 From Aqua Require Import DetSpec DetProofs.
-From Aqua Require Stream Sig SigProofs.
+From Aqua Require Stream Sig SigProofs StreamPosSpec StreamPosProofs.
 Open Scope N_scope.
 Open Scope list_scope.
 Open Scope string_scope.
@@ -83,6 +83,21 @@ Proof. exact DetProofs.farewell_sorted_ok. Qed.
    unique stream names and its stream values sit at pairwise different trace positions *)
 Theorem C20_order_irrelevant_partial : C20_order_irrelevant_stmt.
 Proof. exact DetProofs.C20_order_irrelevant. Qed.
+
+(* the hypothesis of C20_order_irrelevant_partial is an invariant of the executor model (model/StreamPosSpec.v,
+   proofs/StreamPosProofs.v; the invariant itself is pinned as C02_stream_pos_inv in props/C02.v): a context that
+   satisfies stream_pos_ok has unique stream names and stream values at pairwise different trace positions ... *)
+Theorem C20_streams_ok_of_inv : StreamPosSpec.streams_ok_of_inv_stmt.
+Proof. exact StreamPosProofs.streams_ok_of_inv. Qed.
+(* ... and every context in which the farewell step of a run starts satisfies it *)
+Theorem C20_streams_ok_run : StreamPosSpec.streams_ok_run_stmt.
+Proof. exact StreamPosProofs.streams_ok_run. Qed.
+(* hence the run, without any hypothesis on the reached context: all order parameters are irrelevant for the
+   canonical observation.  This is DetSpec.C20_full. *)
+Theorem C20_order_irrelevant_run2 : StreamPosSpec.C20_order_irrelevant_run2_stmt.
+Proof. exact StreamPosProofs.order_irrelevant_run2. Qed.
+Theorem C20_full_holds : C20_full.
+Proof. exact StreamPosProofs.order_irrelevant_run2. Qed.
 
 (* remark: the model run is a function of its inputs; with the identity orders it is ExecStreams.run2 *)
 Theorem C20_function : C20_function_stmt.
@@ -191,3 +206,7 @@ Print Assumptions C20_message_order.
 Print Assumptions C20_message_source_tie.
 Print Assumptions C20_order_irrelevant_partial.
 Print Assumptions C20_function.
+Print Assumptions C20_streams_ok_of_inv.
+Print Assumptions C20_streams_ok_run.
+Print Assumptions C20_order_irrelevant_run2.
+Print Assumptions C20_full_holds.
